@@ -20,10 +20,8 @@ func (msg *MsgUpdateMintersParams) Type() string {
 }
 
 func (msg *MsgUpdateMintersParams) GetSigners() []sdk.AccAddress {
-	creator, err := sdk.AccAddressFromBech32(msg.Authority)
-	if err != nil {
-		panic(err)
-	}
+	// no panic on a malformed address: x/authz and the ICA host ask a message for its signers before validating it
+	creator, _ := sdk.AccAddressFromBech32(msg.Authority)
 	return []sdk.AccAddress{creator}
 }
 
@@ -60,10 +58,8 @@ func (msg *MsgUpdateParams) Type() string {
 }
 
 func (msg *MsgUpdateParams) GetSigners() []sdk.AccAddress {
-	creator, err := sdk.AccAddressFromBech32(msg.Authority)
-	if err != nil {
-		panic(err)
-	}
+	// no panic on a malformed address: x/authz and the ICA host ask a message for its signers before validating it
+	creator, _ := sdk.AccAddressFromBech32(msg.Authority)
 	return []sdk.AccAddress{creator}
 }
 
